@@ -273,34 +273,110 @@ impl Prop for C06 {
                 _ => return "bad-request".into(),
             }
         }
-        let mut r = Reasoner::new();
-        {
-            let mut dict = r.dictionary.write().unwrap();
-            for i in 0..=maxid {
-                let id = dict.encode(&format!("n{}", i));
-                assert_eq!(id, i);
+        // metamorphic twin (dnf / sdd): the same program with 4..63 unrelated uncertain facts (a fresh predicate, fresh
+        // objects) whose triples sort between two relevant uncertain facts u < v that occur in different proofs of one
+        // derived fact, so that their seed identifiers (ranks in triple order) become u and u + 64; the probabilities of
+        // the original facts must not move
+        let const_preds_only = rules.iter().all(|ru| ru.premise.iter().chain(ru.negative_premise.iter()).all(|p| matches!(p.1, shared::terms::Term::Constant(_))));
+        let want_pad = (mode == "dnf" || mode == "sdd") && const_preds_only && crate::proto::fnv(req) % 2 == 0 && std::env::var("KVERIF_C06_NOPAD").is_err();
+        let build = |pad: Option<(u32, u32)>| -> Option<Reasoner> {
+            let mut r = Reasoner::new();
+            {
+                let mut dict = r.dictionary.write().unwrap();
+                for i in 0..=(maxid + 70) {
+                    let id = dict.encode(&format!("n{}", i));
+                    assert_eq!(id, i);
+                }
             }
-        }
-        let name = |i: u32| format!("n{}", i);
-        for (t, k) in &facts {
-            match k {
-                None => r.add_abox_triple(&name(t.subject), &name(t.predicate), &name(t.object)),
-                Some(k) => r.add_tagged_triple(&name(t.subject), &name(t.predicate), &name(t.object), *k as f64 / d as f64),
+            let name = |i: u32| format!("n{}", i);
+            for (t, k) in &facts {
+                match k {
+                    None => r.add_abox_triple(&name(t.subject), &name(t.predicate), &name(t.object)),
+                    Some(k) => r.add_tagged_triple(&name(t.subject), &name(t.predicate), &name(t.object), *k as f64 / d as f64),
+                }
             }
-        }
-        for ru in rules {
-            if r.try_add_rule(ru).is_err() {
-                return "rejected".into();
+            if let Some((count, subject)) = pad {
+                for j in 0..count {
+                    r.add_tagged_triple(&name(subject), &name(maxid + 1), &name(maxid + 2 + j), 0.5);
+                }
+            }
+            for ru in rules.iter().cloned() {
+                if r.try_add_rule(ru).is_err() {
+                    return None;
+                }
+            }
+            Some(r)
+        };
+        let mut r = match build(None) {
+            Some(r) => r,
+            None => return "rejected".into(),
+        };
+        let mut padded_note = String::new();
+        if want_pad {
+            let mut seeds: Vec<Triple> = facts.iter().filter(|(_, k)| k.is_some()).map(|(t, _)| t.clone()).collect();
+            seeds.sort();
+            seeds.dedup();
+            let mut pairs: Vec<(usize, usize)> = Vec::new();
+            if let Some(mut probe) = build(None) {
+                let (_, ts) = probe.infer_new_facts_with_provenance(DnfWmcProvenance::new());
+                for t in probe.dataset_index.query(None, None, None) {
+                    let f = ts.get_tag(&t);
+                    let cl: Vec<Vec<u32>> = f.iter().map(|c| c.iter().map(|(v, _)| *v).collect()).collect();
+                    for i in 0..cl.len() {
+                        for j in 0..cl.len() {
+                            if i != j {
+                                for u in &cl[i] {
+                                    for v in &cl[j] {
+                                        let (u, v) = (*u as usize, *v as usize);
+                                        if u < v && v < seeds.len() && !cl[i].contains(&(v as u32)) && seeds[u].subject < seeds[v].subject {
+                                            pairs.push((u, v));
+                                        }
+                                    }
+                                }
+                            }
+                        }
+                    }
+                }
+            }
+            pairs.sort();
+            pairs.dedup();
+            if !pairs.is_empty() {
+                let (u, v) = pairs[(crate::proto::fnv(req) / 64) as usize % pairs.len()];
+                let pad = Some(((64 - (v - u)) as u32, seeds[u].subject));
+                let probs = |r: &mut Reasoner, sdd: bool| -> Vec<(String, f64)> {
+                    if sdd {
+                        let (_, ts) = r.infer_new_facts_with_provenance(SddProvenance::new());
+                        let mut all = r.dataset_index.query(None, None, None);
+                        all.sort();
+                        all.iter().map(|t| (show_fact(t), ts.provenance().recover_probability(&ts.get_tag(t)))).collect()
+                    } else {
+                        let (_, ts) = r.infer_new_facts_with_provenance(DnfWmcProvenance::new());
+                        let mut all = r.dataset_index.query(None, None, None);
+                        all.sort();
+                        all.iter().map(|t| (show_fact(t), ts.provenance().recover_probability(&ts.get_tag(t)))).collect()
+                    }
+                };
+                if let (Some(mut a), Some(mut b)) = (build(None), build(pad)) {
+                    let pa = probs(&mut a, mode == "sdd");
+                    let pb = probs(&mut b, mode == "sdd");
+                    for (f, x) in &pa {
+                        match pb.iter().find(|(g, _)| g == f) {
+                            Some((_, y)) if (x - y).abs() <= 1e-9 => {}
+                            Some((_, y)) => padded_note = format!(" padded-differs:{}:{:.9}:{:.9}", f, x, y),
+                            None => padded_note = format!(" padded-missing:{}", f),
+                        }
+                    }
+                }
             }
         }
         match mode {
             "dnf" => {
                 let (new, ts) = r.infer_new_facts_with_provenance(DnfWmcProvenance::new());
-                report(&r, new, &ts, |t| format!("@{}", show_dnf(t)))
+                format!("{}{}", report(&r, new, &ts, |t| format!("@{}", show_dnf(t))), padded_note)
             }
             "sdd" => {
                 let (new, ts) = r.infer_new_facts_with_provenance(SddProvenance::new());
-                report(&r, new, &ts, |_| String::new())
+                format!("{}{}", report(&r, new, &ts, |_| String::new()), padded_note)
             }
             "minmax" => {
                 let (new, ts) = r.infer_new_facts_with_provenance(MinMaxProbability);
